@@ -19,7 +19,16 @@ RULE = ("grid cases: every pair of direction algorithm {ico,cube3D,randomS,zero}
         "radii of 1e3..1e5 A). "
         "decomp cases: synthetic N x 7 arrays for from_full_array_to_o_b_t with shuffled rows, exact duplicates and copies "
         "perturbed below the 1e-8 rounding (first occurrence must be kept, un-rounded). pos cases: _t_and_o_2_positions on "
-        "random arrays, both branches. A grid case is non-trivial when n_b*n_o*n_t >= 2; distinct by (names, radii, index arrays)")
+        "random arrays, both branches. Argument representations: every case draws (seed-chosen) how each argument is handed "
+        "over - names / radial text / algorithm names as str, run-time-built str, np.str_, str subclass; factor as float, int, "
+        "np.float64, np.float32, 0-d array; the Cartesian flag as bool, np.bool_, 0/1 (True only for n_o >= 4 and increasing "
+        "radii); index subsets as int64/int32/uint16/uint64 arrays, list, list of numpy ints, non-contiguous, read-only, 2-D, "
+        "boolean mask (array / list), slice, range, scalar (int, np.int64, np.int32, np.uint16, 0-d); the array given to the "
+        "decomposition as returned / Fortran-ordered / strided view / read-only (integer dtypes for an integer-valued array); "
+        "radii of the position helper as float64, list, tuple, strided, read-only, float32, integer dtypes; N of the "
+        "generating grids as int, np.int64, np.int32, np.uint16, 0-d array - plus a seed-independent sweep of all families, "
+        "one argument at a time, over two small fixed grids. Expected values never depend on the representation. "
+        "A grid case is non-trivial when n_b*n_o*n_t >= 2; distinct by (names, radii, index arrays)")
 CHUNK = 40
 
 ALG3 = ["ico", "cube3D", "randomS"]
@@ -40,6 +49,185 @@ def fresh_grid(dim, alg, n):
                 g = SphereGrid4DFactory.create(alg_name=alg if n > 1 else "zero4D", N=n).get_grid_as_array()
         _fresh[key] = np.array(g, dtype=float)
     return _fresh[key]
+
+
+# ----------------------------------------------------------------------------------------------
+# argument representations: the same denoted value handed to the package in different Python / numpy representations.
+# A case stores only family names (case["rep"]); the model and the oracle always work with the denoted values.
+# ----------------------------------------------------------------------------------------------
+class StrSub(str):
+    """a str subclass instance (like a str-mixin Enum member)"""
+
+
+STR_FAMS = ["str", "built", "np_str", "subclass"]
+REAL_FAMS = ["float", "int", "f64", "f32", "0d"]
+FLAG_FAMS = ["bool", "np_bool", "int01"]
+INT_FAMS = ["int", "i64", "i32", "u16", "0d"]
+ARR_FAMS = ["f64", "fortran", "strided", "readonly"]                 # 2-D float arrays (decomposition input, directions)
+INTARR_FAMS = ["i64", "i32", "i16"]                                  # integer-valued 2-D arrays
+T_FAMS = ["f64", "list", "tuple", "strided", "readonly", "f32", "i64", "i32", "u16", "intlist"]   # 1-D radii of the position helper
+IDX_LIST_FAMS = ["i64", "i32", "u16", "u64", "list", "npint_list", "noncontig", "readonly"]
+
+# established on the unchanged tree (see evidence "representations_left_out"): these raise or genuinely denote something else
+LEFT_OUT = {
+    "index array as tuple": "numpy reads a tuple as a multi-dimensional index -> IndexError (too many indices); not the same subset",
+    "index array of integer-valued floats / float scalar index": "IndexError: arrays used as indices must be of integer (or boolean) type",
+    "scalar index True/False / np.bool_": "numpy reads a boolean scalar as a 0-d mask (result of shape (1, N)), not as the integer 1/0",
+    "full array as list / tuple of rows (from_full_array_to_o_b_t)": "TypeError: list indices must be integers or slices, not tuple (the function slices columns)",
+    "full array as float32 / longdouble": "not the same numbers (float32 is not exact for grid coordinates); accepted, but results differ by construction",
+    "o_property of _t_and_o_2_positions as list": "AttributeError: 'list' object has no attribute 'shape'",
+    "N as np.uint64 for rotation grids": "TypeError on the unchanged tree (2*N becomes float64)",
+    "position_grid_cartesian=True with fewer than 4 directions": "QhullError on the unchanged tree (allowed by C19); True-representations are used for n_o >= 4 only",
+}
+
+
+def rep_str(fam, s):
+    if fam == "built":
+        return "".join([c for c in s])          # built at run time, not an interned literal
+    if fam == "np_str":
+        return np.str_(s)
+    if fam == "subclass":
+        return StrSub(s)
+    return str(s)
+
+
+def rep_real(fam, x):
+    x = float(x)
+    if fam == "int" and x == int(x):
+        return int(x)
+    if fam == "f64":
+        return np.float64(x)
+    if fam == "f32" and float(np.float32(x)) == x:
+        return np.float32(x)
+    if fam == "0d":
+        return np.array(x)
+    return x
+
+
+def rep_flag(fam, v):
+    if fam == "np_bool":
+        return np.bool_(v)
+    if fam == "int01":
+        return int(bool(v))
+    return bool(v)
+
+
+def rep_int(fam, n):
+    n = int(n)
+    if fam == "i64":
+        return np.int64(n)
+    if fam == "i32":
+        return np.int32(n)
+    if fam == "u16" and 0 <= n < 65536:
+        return np.uint16(n)
+    if fam == "0d":
+        return np.array(n)
+    return n
+
+
+def rep_arr2(fam, a):
+    """2-D array representations; 'f64' hands over the very object"""
+    if fam == "fortran":
+        return np.asfortranarray(np.array(a, dtype=float))
+    if fam == "strided":
+        a = np.asarray(a, dtype=float)
+        big = np.full((2 * a.shape[0] + 1, 2 * a.shape[1] + 1), 7.25)
+        big[1::2, 1::2] = a
+        return big[1::2, 1::2]
+    if fam == "readonly":
+        b = np.array(a, dtype=float)
+        b.setflags(write=False)
+        return b
+    if fam in ("i64", "i32", "i16"):
+        return np.array(a).astype({"i64": np.int64, "i32": np.int32, "i16": np.int16}[fam])
+    return a if isinstance(a, np.ndarray) else np.array(a, dtype=float)
+
+
+def rep_t(fam, t):
+    t = [float(v) for v in t]
+    integer = all(v == int(v) and 0 <= v < 60000 for v in t)
+    if fam == "list":
+        return list(t)
+    if fam == "tuple":
+        return tuple(t)
+    if fam == "strided":
+        return np.array([v for x in t for v in (x, -1.0)])[::2]
+    if fam == "readonly":
+        b = np.array(t)
+        b.setflags(write=False)
+        return b
+    if fam == "f32" and all(float(np.float32(v)) == v for v in t):
+        return np.array(t, dtype=np.float32)
+    if fam in ("i64", "i32", "u16") and integer:
+        return np.array(t).astype({"i64": np.int64, "i32": np.int32, "u16": np.uint16}[fam])
+    if fam == "intlist" and integer:
+        return [int(v) for v in t]
+    return np.array(t, dtype=float)
+
+
+def idx_fams_for(ix, N):
+    """index families that denote exactly the index list ix (order and repeats included) for an axis of length N"""
+    fams = ["i64", "i32", "list", "npint_list", "noncontig", "readonly"]
+    if all(i >= 0 for i in ix):
+        fams += ["u16", "u64"]
+    if len(ix) >= 1 and all(0 <= i < N for i in ix) and all(a < b for a, b in zip(ix, ix[1:])):
+        fams += ["mask", "mask_list"]
+    if len(ix) == 0 and N > 0:
+        fams += ["mask"]
+    if len(ix) >= 2 and all(0 <= i < N for i in ix) and len({b - a for a, b in zip(ix, ix[1:])}) == 1 and ix[1] != ix[0]:
+        fams += ["slice", "range"]
+    if len(ix) == 1 and -N <= ix[0] < N:
+        fams += ["s_int", "s_i64", "s_i32", "s_0d"] + (["s_u16"] if ix[0] >= 0 else [])
+    if len(ix) >= 2 and len(ix) % 2 == 0:
+        fams += ["2d"]
+    return fams
+
+
+def rep_idx(fam, ix, N):
+    if fam in ("mask", "mask_list"):
+        m = np.zeros(N, dtype=bool)
+        m[list(ix)] = True
+        return m if fam == "mask" else m.tolist()
+    if fam in ("slice", "range"):
+        step = ix[1] - ix[0]
+        stop = ix[-1] + (1 if step > 0 else -1)
+        if fam == "range":
+            return range(ix[0], stop, step)
+        return slice(ix[0], None if stop < 0 else stop, step)
+    if fam.startswith("s_"):
+        return rep_int({"s_int": "int", "s_i64": "i64", "s_i32": "i32", "s_u16": "u16", "s_0d": "0d"}[fam], ix[0])
+    if fam == "list":
+        return list(ix)
+    if fam == "npint_list":
+        return [np.int64(i) for i in ix]
+    if fam == "noncontig":
+        return np.array([v for i in ix for v in (i, 0)], dtype=np.int64)[::2]
+    if fam == "readonly":
+        b = np.array(ix, dtype=np.int64)
+        b.setflags(write=False)
+        return b
+    if fam == "2d":
+        return np.array(ix, dtype=np.int64).reshape(2, len(ix) // 2)
+    dt = {"i64": np.int64, "i32": np.int32, "u16": np.uint16, "u64": np.uint64}.get(fam, np.int64)
+    return np.array(ix, dtype=dt)
+
+
+def draw_grid_rep(rng, case, plain=False):
+    """seed-chosen representation of every argument of a grid case (plain=True: the plain Python reference)"""
+    N = case["nb"] * case["no"] * len(case["nm"])
+    if plain:
+        return {"b": "str", "o": "str", "t": "str", "factor": [2.0, "float"], "cart": [False, "bool"], "arr": "f64",
+                "idx": ["i64"] * len(case["idx"]), "gen": ["int", "str", "int", "str"]}
+    nm = sorted(case["nm"])
+    # the Cartesian option needs at least 4 directions (qhull) and strictly increasing positive radii (its constructor
+    # takes the radial increments); elsewhere the unchanged tree raises (C19), so True is not drawn there
+    cart = case["no"] >= 4 and nm[0] > 0 and all(b - a > 1e-6 for a, b in zip(nm, nm[1:])) and rng.random() < 0.2
+    factor = rng.choice([2.0, 2.0, 1.0, 3.0, 0.5, 2.5])
+    return {"b": rng.choice(STR_FAMS), "o": rng.choice(STR_FAMS), "t": rng.choice(STR_FAMS),
+            "factor": [factor, rng.choice(REAL_FAMS)], "cart": [cart, rng.choice(FLAG_FAMS)],
+            "arr": rng.choice(["f64", "f64", "f64"] + ARR_FAMS),
+            "idx": [rng.choice(idx_fams_for(ix, N)) for ix in case["idx"]],
+            "gen": [rng.choice(INT_FAMS), rng.choice(STR_FAMS), rng.choice(INT_FAMS), rng.choice(STR_FAMS)]}
 
 
 # ----------------------------------------------------------------------------------------------
@@ -69,18 +257,26 @@ def radial(rng, nt, special=None):
         vals = [base, base + rng.choice([0.0, 4e-11, 2e-10, 5e-9, 3e-8, 1e-6])] + [round(rng.uniform(2.1, 3.0), 3) for _ in range(max(nt - 2, 0))]
         rng.shuffle(vals)
         return repr(vals), vals, "close_radii"
+    decade = None
+    if isinstance(special, tuple) and special[0] == "cluster":
+        special, centre_fixed, decade = special
+    else:
+        centre_fixed = None
     if special == "cluster":
         # radii whose Angstrom values cluster around 0.1 / 1 / 10 A, where tolerances of shared helpers (np.allclose,
         # np.isclose, rounding) can bite: offsets log-uniform over 1e-9 .. 1e-2 A, both signs, mutual gaps > 1e-7 A so that
         # the decomposition stays defined; sometimes the exact centre is one of the shells or the only shell
         import math
-        centre = rng.choice([1.0, 1.0, 1.0, 0.1, 10.0])
-        if rng.random() < 0.12:
+        centre = centre_fixed if centre_fixed is not None else rng.choice([1.0, 1.0, 1.0, 0.1, 10.0])
+        if decade is None and rng.random() < 0.12:
             ang = [centre]
         else:
-            ang = [centre] if rng.random() < 0.35 else []
-            while len(ang) < max(nt, 1):
-                off = 10 ** rng.uniform(-9, -2) * rng.choice([1, 1, -1])
+            ang = [centre] if rng.random() < 0.35 and nt > 1 else []
+            tries = 0
+            while len(ang) < max(nt, 1) and tries < 60:      # narrow decades have no room for several shells 1.5e-7 apart
+                tries += 1
+                # stratified cases keep all shells of one grid in the same decade of distance from the centre
+                off = 10 ** (rng.uniform(-9, -2) if decade is None else rng.uniform(decade, decade + 1)) * rng.choice([1, 1, -1])
                 v = centre + off
                 if all(abs(v - w) > 1.5e-7 for w in ang):
                     ang.append(v)
@@ -136,6 +332,13 @@ def index_arrays(rng, N):
     out.append(sorted(rng.sample(range(N), k)))
     out.append([rng.randrange(N) for _ in range(rng.randint(1, 15))])
     out.append([rng.randrange(-N, N) for _ in range(rng.randint(1, 10))])
+    # a subset that is naturally written as a slice / range / boolean mask, and a single row
+    step = rng.choice([1, 1, 2, 3, -1, -2])
+    a = rng.randrange(N)
+    prog = list(range(a, N if step > 0 else -1, step))[:rng.randint(2, 12)]
+    if len(prog) >= 2:
+        out.append(prog)
+    out.append([rng.randrange(-N, N)])
     r = rng.random()
     if r < 0.15:
         out.append([])
@@ -149,9 +352,11 @@ def index_arrays(rng, N):
 def grid_case(rng, o_alg, no, b_alg, nb, nt, special=None):
     t, nm, tk = radial(rng, nt, special)
     N = nb * no * len(nm)
-    return {"kind": "grid", "o_alg": o_alg, "no": no, "b_alg": b_alg, "nb": nb,
+    case = {"kind": "grid", "o_alg": o_alg, "no": no, "b_alg": b_alg, "nb": nb,
             "o": spell(rng, o_alg, no, "ico"), "b": spell(rng, b_alg, nb, "cube4D"),
             "t": t, "nm": nm, "tkind": tk, "idx": index_arrays(rng, N)}
+    case["rep"] = draw_grid_rep(rng, case)
+    return case
 
 
 def unit(v):
@@ -194,7 +399,7 @@ def decomp_case(ctx, rng, i):
     elif mode == "dupes":
         rows = rows + [list(r) for r in rng.choices(rows, k=rng.randint(1, 6))]
         rng.shuffle(rows)
-    return {"kind": "decomp", "arr": [[float(v) for v in r] for r in rows], "mode": mode}
+    return {"kind": "decomp", "arr": [[float(v) for v in r] for r in rows], "mode": mode, "rep": {"arr": rng.choice(ARR_FAMS)}}
 
 
 def pos_case(ctx, rng, i):
@@ -204,12 +409,107 @@ def pos_case(ctx, rng, i):
         o = g.normal(size=(n_o, rng.choice([3, 3, 4, 2]))).tolist()
     else:
         o = g.normal(size=n_o).tolist()
-    t = g.uniform(0.1, 30, size=n_t).tolist()
-    return {"kind": "pos", "o": o, "t": t}
+    if rng.random() < 0.35:
+        t = [float(v) for v in rng.sample(range(1, 40), n_t)]      # integer-valued radii: may be handed over as ints
+    else:
+        t = g.uniform(0.1, 30, size=n_t).tolist()
+    return {"kind": "pos", "o": o, "t": t, "rep": {"o": rng.choice(ARR_FAMS), "t": rng.choice(T_FAMS)}}
+
+
+def sweep_cases():
+    """exhaustive sweep, independent of the seed: every representation family of every argument, one argument at a time
+    (all others plain Python), over two small fixed grids, two fixed arrays for the decomposition and fixed inputs of the
+    position helper; every index family in one index-helper call each"""
+    lin = [float(v) for v in np.linspace(0.2, 0.6, 3, dtype=float)]
+    bases = [dict(kind="grid", o_alg="ico", no=4, b_alg="randomQ", nb=3, o="ico_4", b="randomQ_3", t="[0.3, 0.1]", nm=[0.3, 0.1], tkind="list"),
+             dict(kind="grid", o_alg="cube3D", no=5, b_alg="cube4D", nb=2, o="5_cube3D", b="cube4D_2", t="linspace(0.2, 0.6, 3)", nm=lin,
+                  tkind="linspace")]
+    for base in bases:
+        N = base["nb"] * base["no"] * len(base["nm"])
+        idx, fams = [], []
+
+        def add(ix, fs):
+            for f in fs:
+                assert f in idx_fams_for(ix, N), (f, ix)
+                idx.append(list(ix))
+                fams.append(f)
+        add([0, 5, 5, N - 1, 2], ["i64", "i32", "u16", "u64", "list", "npint_list", "noncontig", "readonly"])
+        add([-1, 3, -N, 3], ["i64", "i32", "list", "npint_list", "noncontig", "readonly", "2d"])
+        add([1, 4, 6, N - 2], ["mask", "mask_list", "i64"])
+        add([2, 5, 8, 11], ["slice", "range", "mask"])
+        add([10, 8, 6, 4, 2, 0], ["slice", "range", "2d"])
+        add([N - 1, N - 2], ["slice", "range"])
+        add([7], ["s_int", "s_i64", "s_i32", "s_u16", "s_0d", "mask", "list"])
+        add([-3], ["s_int", "s_i64", "s_i32", "s_0d", "i64"])
+        add([], ["i64", "list", "mask", "u16"])
+        add(list(range(N)), ["mask", "slice", "range", "i32"])
+        c = dict(base, idx=idx, sweep="idx")
+        c["rep"] = draw_grid_rep(None, c, plain=True)
+        c["rep"]["idx"] = fams
+        yield c
+        short = [[0, N - 1, 3], [-2]]
+
+        def one(**changes):
+            c = dict(base, idx=[list(x) for x in short], sweep=",".join(changes))
+            c["rep"] = draw_grid_rep(None, c, plain=True)
+            c["rep"].update(changes)
+            return c
+        for a in ("b", "o", "t"):
+            for f in STR_FAMS[1:]:
+                yield one(**{a: f})
+        for val, fs in ((2.0, ["int", "f64", "f32", "0d"]), (0.5, ["f32", "0d"]), (3.0, ["int"])):
+            for f in fs:
+                yield one(factor=[val, f])
+        for val, fs in ((False, ["np_bool", "int01"]), (True, FLAG_FAMS)):
+            for f in fs:
+                yield one(cart=[val, f])
+        for f in ARR_FAMS[1:]:
+            yield one(arr=f)
+        for f in INT_FAMS[1:]:
+            yield one(gen=[f, "str", f, "str"])
+        for f in STR_FAMS[1:]:
+            yield one(gen=["int", f, "int", f])
+    # decomposition: a fixed float array and a fixed integer-valued one
+    g = np.random.default_rng(20240909)
+    dirs = [unit(g.normal(size=3)) for _ in range(3)]
+    quats = [unit(g.normal(size=4)) for _ in range(2)]
+    rows = [list(r * d) + list(q) for r in (1.5, 4.0) for d in dirs for q in quats]
+    for f in ARR_FAMS:
+        yield {"kind": "decomp", "arr": [[float(v) for v in r] for r in rows], "mode": "asis", "rep": {"arr": f}, "sweep": "arr"}
+    idirs = [[0, 0, 1], [1, 0, 0], [0, -1, 0], [-1, 0, 0]]
+    iquats = [[0, 0, 0, 1], [1, 0, 0, 0], [0, 1, 0, 0]]
+    irows = [[r * v for v in d] + q for r in (2, 5, 11) for d in idirs for q in iquats]
+    for f in ARR_FAMS + INTARR_FAMS:
+        yield {"kind": "decomp", "arr": [[float(v) for v in r] for r in irows], "mode": "asis", "rep": {"arr": f}, "sweep": "intarr"}
+    # position helper
+    o2 = g.normal(size=(3, 3)).tolist()
+    o1 = g.normal(size=4).tolist()
+    oi = [[1.0, 0.0, 0.0], [0.0, -2.0, 3.0]]
+    t = [1.0, 2.0, 5.0]
+    for f in ARR_FAMS:
+        yield {"kind": "pos", "o": o2, "t": t, "rep": {"o": f, "t": "f64"}, "sweep": "o"}
+    for f in T_FAMS[1:]:
+        yield {"kind": "pos", "o": o2, "t": t, "rep": {"o": "f64", "t": f}, "sweep": "t"}
+        yield {"kind": "pos", "o": o1, "t": t, "rep": {"o": "f64", "t": f}, "sweep": "t"}
+    for f in ("strided", "readonly"):
+        yield {"kind": "pos", "o": o1, "t": t, "rep": {"o": f, "t": "f64"}, "sweep": "o"}
+    for f in INTARR_FAMS:
+        yield {"kind": "pos", "o": oi, "t": t, "rep": {"o": f, "t": "f64"}, "sweep": "o"}
 
 
 def cases(ctx):
     rng = ctx.rng
+    ctx.extra_cov["representations_left_out"] = LEFT_OUT
+    ctx.extra_cov["representation_families"] = {
+        "names / radial text / algorithm names": STR_FAMS, "factor": REAL_FAMS, "position_grid_cartesian": FLAG_FAMS,
+        "N of the generating grids, scalar row index": INT_FAMS,
+        "index arrays": IDX_LIST_FAMS + ["mask", "mask_list", "slice", "range", "2d", "scalar (s_*)"],
+        "full array / directions (2-D)": ARR_FAMS + INTARR_FAMS, "radii of the position helper (1-D)": T_FAMS}
+    ctx.note("argument representations: every case draws a representation family for each argument it hands to the package "
+             "(seed-chosen), plus a seed-independent sweep of all families over two small fixed grids; the model and the oracle "
+             "use the denoted values only. Representations that raise or denote something else on the unchanged tree are "
+             "left out (coverage.representations_left_out)")
+    yield from sweep_cases()
     # fixed corpus: one grid of every algorithm pair with three unsorted radii, the n_b,n_o in {1,2,3} corner
     for o_alg, b_alg in itertools.product(ALG3, ALG4):
         yield grid_case(rng, o_alg, 5, b_alg, 4, 3)
@@ -225,7 +525,13 @@ def cases(ctx):
         for sp in ["negative", "zero", "dup", "dup", "zero", "negative"]:
             yield grid_case(rng, rng.choice(ALG3), rng.randint(2, 6), rng.choice(ALG4), rng.randint(2, 6), rng.randint(2, 3), sp)
         yield grid_case(rng, "ico", 5, "cube4D", 9, 2)
-        for _ in range(40):
+        k = 0
+        for decade in range(-9, -1):                       # stratified: every decade of offset at every centre
+            for centre in (1.0, 1.0, 0.1, 10.0):
+                k += 1
+                yield grid_case(rng, rng.choice(ALG3), rng.randint(1, 8), rng.choice(ALG4), rng.randint(1, 4), 1 + k % 4,
+                                ("cluster", centre, decade))
+        for _ in range(16):
             yield grid_case(rng, rng.choice(ALG3), rng.randint(1, 8), rng.choice(ALG4), rng.randint(1, 4), rng.randint(1, 4), "cluster")
         for _ in range(30):
             yield grid_case(rng, rng.choice(ALG3), rng.randint(1, 8), rng.choice(ALG4), rng.randint(1, 4), rng.randint(1, 4), "extreme")
@@ -245,7 +551,12 @@ def cases(ctx):
             yield grid_case(rng, o_alg, rng.randint(2, 5), "fulldiv", 40, rng.randint(1, 2))
         for sp in ["negative", "zero", "dup"] * 20:
             yield grid_case(rng, rng.choice(ALG3), rng.randint(1, 6), rng.choice(ALG4), rng.randint(1, 6), rng.randint(2, 4), sp)
-        for _ in range(400):
+        for rep in range(6):
+            for decade in range(-9, -1):
+                for centre in (1.0, 1.0, 0.1, 10.0):
+                    yield grid_case(rng, rng.choice(ALG3), rng.randint(1, 9), rng.choice(ALG4), rng.randint(1, 6), 1 + (rep + decade) % 4,
+                                    ("cluster", centre, decade))
+        for _ in range(250):
             yield grid_case(rng, rng.choice(ALG3), rng.randint(1, 9), rng.choice(ALG4), rng.randint(1, 6), rng.randint(1, 4), "cluster")
         for _ in range(300):
             yield grid_case(rng, rng.choice(ALG3), rng.randint(1, 9), rng.choice(ALG4), rng.randint(1, 6), rng.randint(1, 4), "extreme")
@@ -264,13 +575,41 @@ def rows_out(a):
     return [None if np.any(np.isnan(r)) else [float(v) for v in r] for r in a]
 
 
-def helper(fn, idx):
+def helper(fn, idx, fam="i64", N=0):
     try:
         with core.quiet():
-            r = fn(None if idx is None else np.array(idx, dtype=int))
+            r = fn(None if idx is None else rep_idx(fam, idx, N))
         return [int(v) for v in np.asarray(r).ravel()]
     except Exception as e:
         return {"err": core.errname(e)}
+
+
+_gen_rep_cache = {}
+
+
+def gen_rep_agrees(dim, alg, n, nfam, afam):
+    """the generating grid built through the factory with N / algorithm name in another representation is the grid built
+    with plain Python arguments (None: not checked)"""
+    if n == 1 or (alg == "cube4D" and n > 8) or (nfam in ("int",) and afam == "str"):
+        return None
+    key = (dim, alg, n, nfam, afam)
+    if key not in _gen_rep_cache:
+        from molgri.space.rotobj import SphereGrid3DFactory, SphereGrid4DFactory
+        F = SphereGrid3DFactory if dim == 3 else SphereGrid4DFactory
+        try:
+            with core.quiet():
+                g = np.asarray(F.create(alg_name=rep_str(afam, alg), N=rep_int(nfam, n)).get_grid_as_array(), dtype=float)
+            ref = fresh_grid(dim, alg, n)
+            _gen_rep_cache[key] = bool(g.shape == ref.shape and np.array_equal(g, ref))
+        except Exception as e:
+            _gen_rep_cache[key] = core.errname(e)
+    return _gen_rep_cache[key]
+
+
+def rep_o(fam, o):
+    if o and isinstance(o[0], list):
+        return rep_arr2(fam, np.array(o, dtype=float))
+    return rep_t({"fortran": "f64"}.get(fam, fam), o)
 
 
 def impl(case):
@@ -278,18 +617,36 @@ def impl(case):
     try:
         with core.quiet():
             if case["kind"] == "grid":
-                fg = FullGrid(case["b"], case["o"], case["t"])
+                rep = case.get("rep") or draw_grid_rep(None, case, plain=True)
+                N0 = case["nb"] * case["no"] * len(case["nm"])
+                kw = dict(factor=rep_real(rep["factor"][1], rep["factor"][0]),
+                          position_grid_cartesian=rep_flag(rep["cart"][1], rep["cart"][0]))
+                names = (rep_str(rep["b"], case["b"]), rep_str(rep["o"], case["o"]), rep_str(rep["t"], case["t"]))
+                cart_fallback = False
+                try:
+                    fg = FullGrid(*names, **kw)
+                except Exception as e:
+                    if rep["cart"][0] and core.errname(e) == "other:QhullError":
+                        # Cartesian option on a degenerate direction set: qhull may refuse (allowed, C19) - not C09's business
+                        kw["position_grid_cartesian"] = rep_flag(rep["cart"][1], False)
+                        fg = FullGrid(*names, **kw)
+                        cart_fallback = True
+                    else:
+                        raise
                 A = fg.get_full_grid_as_array()
                 out = {"shape": list(A.shape), "A": rows_out(A), "n": [int(fg.get_b_N()), int(fg.get_o_N()), int(fg.get_t_N())],
-                       "len": int(len(fg)),
+                       "len": int(len(fg)), "cart_fallback": cart_fallback,
                        "o_grid": np.asarray(fg.get_o_grid().get_grid_as_array(), dtype=float).tolist(),
                        "b_grid": np.asarray(fg.b_rotations.get_grid_as_array(), dtype=float).tolist(),
                        "radii": [float(v) for v in fg.get_radii()],
                        "qi_all": helper(fg.get_quaternion_index, None), "pi_all": helper(fg.get_position_index, None),
-                       "qi": [helper(fg.get_quaternion_index, ix) for ix in case["idx"]],
-                       "pi": [helper(fg.get_position_index, ix) for ix in case["idx"]]}
+                       "qi": [helper(fg.get_quaternion_index, ix, f, N0) for ix, f in zip(case["idx"], rep["idx"])],
+                       "pi": [helper(fg.get_position_index, ix, f, N0) for ix, f in zip(case["idx"], rep["idx"])],
+                       "gen_rep": [gen_rep_agrees(3, case["o_alg"], case["no"], rep["gen"][0], rep["gen"][1]),
+                                   gen_rep_agrees(4, case["b_alg"], case["nb"], rep["gen"][2], rep["gen"][3])]}
                 if not np.any(np.isnan(A)):
                     A0 = A.copy()
+                    A = rep_arr2(rep["arr"], A)        # 'f64': the very array the grid returned
                     with np.errstate(all="ignore"):
                         o, b, t = from_full_array_to_o_b_t(A)
                     out["dec"] = [rows_out(o), rows_out(b), [float(v) for v in t]]
@@ -301,10 +658,13 @@ def impl(case):
                 return out
             if case["kind"] == "decomp":
                 A = np.array(case["arr"], dtype=float)
-                o, b, t = from_full_array_to_o_b_t(A)
+                Arep = rep_arr2((case.get("rep") or {}).get("arr", "f64"), A.copy())
+                o, b, t = from_full_array_to_o_b_t(Arep)
                 return {"dec": [rows_out(o), rows_out(b), [float(v) for v in t]],
-                        "norms": [float(v) for v in np.linalg.norm(A[:, :3], axis=1)]}
-            r = _t_and_o_2_positions(np.array(case["o"], dtype=float), np.array(case["t"], dtype=float))
+                        "norms": [float(v) for v in np.linalg.norm(A[:, :3], axis=1)],
+                        "stable": bool(np.array_equal(np.asarray(Arep, dtype=float), A))}
+            rep = case.get("rep") or {}
+            r = _t_and_o_2_positions(rep_o(rep.get("o", "f64"), case["o"]), rep_t(rep.get("t", "f64"), case["t"]))
             r = np.asarray(r, dtype=float)
             return {"pos": r.tolist(), "shape": list(r.shape)}
     except Exception as e:
@@ -430,6 +790,10 @@ def compare(ctx, case, out, mouts):
             ctx.branch("pos_1d")
         if not ok:
             ctx.corr("positions", case, out["pos"], m["ok"])
+        ctx.branch("rep_pos_o_" + (case.get("rep") or {}).get("o", "f64"))
+        tf = (case.get("rep") or {}).get("t", "f64")
+        tv = rep_t(tf, case["t"])           # the family falls back to float64 when the values are not representable in it
+        ctx.branch("rep_pos_t_" + (tf if not (isinstance(tv, np.ndarray) and tv.dtype == np.float64 and tf in ("f32", "i64", "i32", "u16", "intlist")) else "f64"))
         ctx.nt(("pos", tuple(case["t"])))
         return
     if k == "decomp":
@@ -441,6 +805,7 @@ def compare(ctx, case, out, mouts):
             return
         compare_dec(ctx, case, out["dec"], mouts[0])
         ctx.branch("decomp_" + case["mode"])
+        ctx.branch("rep_decomp_array_" + (case.get("rep") or {}).get("arr", "f64"))
         ctx.nt(("decomp", len(case["arr"]), case["arr"][0][0]))
         if len(case["arr"]) <= 6:
             ctx.sample(case, limit=3)
@@ -489,8 +854,23 @@ def compare(ctx, case, out, mouts):
             ctx.branch("decompose_compared")
         else:
             ctx.branch(decomp_ops(out["A"], out["norms"])[1] or "decompose_not_sent")
+    rep = case.get("rep")
+    if rep:
+        for a in ("b", "o", "t"):
+            ctx.branch(f"rep_name_{a}_{rep[a]}")
+        fv = rep_real(rep["factor"][1], rep["factor"][0])
+        ctx.branch("rep_factor_" + (rep["factor"][1] if type(fv) is not float else "float"))
+        ctx.branch(f"rep_cartesian_{rep['cart'][0]}_{rep['cart'][1]}")
+        if out.get("cart_fallback"):
+            ctx.branch("cartesian_qhull_refused_retried_spherical")
+        ctx.branch(f"rep_array_{rep['arr']}")
+        for f in rep["idx"]:
+            ctx.branch(f"rep_idx_{f}")
+        for k2, g in enumerate(out.get("gen_rep", [])):
+            if g is not None:
+                ctx.branch(f"rep_gen_{'N' if True else ''}{rep['gen'][2 * k2]}_alg_{rep['gen'][2 * k2 + 1]}")
     if nb * no * nt >= 2:
-        ctx.nt(("grid", case["o"], case["b"], case["t"], str(case["idx"])))
+        ctx.nt(("grid", case["o"], case["b"], case["t"], str(case["idx"]), str(rep)))
     ctx.branch(f"rows_{'1' if nb*no*nt == 1 else '2-20' if nb*no*nt <= 20 else '21-100' if nb*no*nt <= 100 else '>100'}")
     if nb * no * nt <= 8 and nt > 1:
         ctx.sample({k2: case[k2] for k2 in ("b", "o", "t", "idx")}, limit=4)
@@ -528,6 +908,9 @@ def oracle(ctx, case, out):
             ctx.fail("C09:exception", f"from_full_array_to_o_b_t raised {out['err']}", case)
             return
         A = np.array(case["arr"], dtype=float)
+        if not out.get("stable", True):
+            ctx.fail("C09:array_not_stable", "from_full_array_to_o_b_t changed the array it was given", case)
+            return
         if near_tie(A[:, 3:]):
             ctx.branch("oracle_excluded_near_tie")
             return
@@ -602,6 +985,13 @@ def oracle(ctx, case, out):
     if not out.get("stable", True):
         ctx.fail("C09:array_not_stable", "the array changed after decomposing it / differs when asked for again", case)
         return
+    for k2, (g, what) in enumerate(zip(out.get("gen_rep", []), ("direction", "rotation"))):
+        if g is not None and g is not True:
+            fams = (case.get("rep") or {}).get("gen", ["?"] * 4)
+            ctx.fail("C09:generating_grid_representation",
+                     f"the generating {what} grid built with N as {fams[2 * k2]} and algorithm name as {fams[2 * k2 + 1]} is not the grid "
+                     f"built with a Python int / str ({g})", case)
+            return
     # decomposition: needs positive radii that stay distinct after rounding, and distinct directions / rotations
     if radii[0] <= 0 or (nt > 1 and np.min(np.diff(radii)) < 2e-8):
         ctx.branch("oracle_decompose_excluded_radii")
